@@ -18,7 +18,12 @@ pub enum Op {
     Remove(usize),
     SetEnabled(usize, bool),
     Clear,
+    /// `add_rules_from_grl` with a text of three rules (names by index, salience pattern by index): rules are added in
+    /// text order up to the first one that is refused
+    AddBatch([usize; 3], usize),
 }
+
+const BATCH_SALIENCES: [[i32; 3]; 3] = [[0, 5, -1], [5, 5, 0], [-1, 0, 5]];
 
 pub fn mk_rule(name: &str, salience: i32) -> Rule {
     Rule::new(
@@ -33,13 +38,20 @@ pub struct Sys {
     kb: KnowledgeBase,
     model: Vec<(String, i32, bool)>, // descending salience, insertion order among equals
     last_version: u64,
+    batches: bool,
 }
 
 impl Sys {
     pub fn new() -> Self {
         let kb = KnowledgeBase::new("kb");
         let v = kb.version();
-        Sys { kb, model: vec![], last_version: v }
+        Sys { kb, model: vec![], last_version: v, batches: false }
+    }
+    /// the alphabet also holds the text / batch entry point
+    pub fn with_batches() -> Self {
+        let mut s = Sys::new();
+        s.batches = true;
+        s
     }
     fn observe(&self) -> Result<String, Mismatch> {
         let listed: Vec<(String, i32, bool)> = self.kb.get_rules().iter().map(|r| (r.name.clone(), r.salience, r.enabled)).collect();
@@ -103,6 +115,17 @@ impl System for Sys {
             v.push(Op::SetEnabled(n, true));
         }
         v.push(Op::Clear);
+        if self.batches {
+            for a in 0..3usize {
+                for b in 0..3usize {
+                    for c in 0..3usize {
+                        for p in 0..BATCH_SALIENCES.len() {
+                            v.push(Op::AddBatch([a, b, c], p));
+                        }
+                    }
+                }
+            }
+        }
         v
     }
     fn step(&mut self, op: &Op) -> Result<u64, Mismatch> {
@@ -162,6 +185,26 @@ impl System for Sys {
                 must_grow = !self.model.is_empty();
                 self.model.clear();
             }
+            Op::AddBatch(names, p) => {
+                let sal = BATCH_SALIENCES[*p];
+                let text: String = (0..3).map(|i| format!("rule \"{}\" salience {} {{ when X.v == 1 then X.w = {}; }}\n", NAMES[names[i]], sal[i], i)).collect();
+                let r = self.kb.add_rules_from_grl(&text);
+                let mut refused = false;
+                for i in 0..3 {
+                    let name = NAMES[names[i]];
+                    if self.model.iter().any(|x| x.0 == name) {
+                        refused = true;
+                        break;
+                    }
+                    let pos = self.model.iter().position(|x| x.1 < sal[i]).unwrap_or(self.model.len());
+                    self.model.insert(pos, (name.to_string(), sal[i], true));
+                    must_grow = true;
+                }
+                match (&r, refused) {
+                    (Ok(3), false) | (Err(_), true) => {}
+                    _ => return Err(Mismatch::new(if refused { "duplicate_accepted" } else { "add_failed" }, format!("add_rules_from_grl({:?}) = {:?}, a rule of the text is a duplicate: {}", text, r, refused))),
+                }
+            }
         }
         let after = self.observe()?;
         let v1 = self.kb.version();
@@ -177,6 +220,7 @@ impl System for Sys {
             Op::Remove(_) => "remove",
             Op::SetEnabled(..) => "set_enabled",
             Op::Clear => "clear",
+            Op::AddBatch(..) => "add_from_text",
         }
         .to_string()
     }
@@ -231,7 +275,7 @@ impl System for PairSys {
                 let kb = self.kbs[0].kb.clone();
                 let model = self.kbs[0].model.clone();
                 let v = kb.version();
-                self.kbs.push(Sys { kb, model, last_version: v });
+                self.kbs.push(Sys { kb, model, last_version: v, batches: false });
                 7
             }
         };
@@ -272,11 +316,25 @@ pub fn run(opts: &Opts) -> Vec<Report> {
         }
         out.push(r);
     }
+    if crate::props::wants(opts, "kb_closure_with_text_loading") {
+        let mut cfg = Config::new("kb_closure_with_text_loading", 40);
+        cfg.ctx = json!({"names": NAMES, "saliences": SALIENCES, "batch_saliences": BATCH_SALIENCES});
+        cfg.expected_letters = ["add", "remove", "set_enabled", "clear", "add_from_text"].iter().map(|s| s.to_string()).collect();
+        let mut r = explore::closure(&Sys::with_batches, &cfg);
+        if r.get("closed") != 1 {
+            r.notes.push("MACHINERY: knowledge-base state graph (with text loading) did not close".to_string());
+        }
+        r.bound = format!("{}; plus add_rules_from_grl with every text of three rules over the names A, B, C (repeats allowed) x 3 salience patterns {:?} — rules are added in text order up to the first refused one", r.bound, BATCH_SALIENCES);
+        out.push(r);
+    }
     out
 }
 
 pub fn replay(case: &serde_json::Value) -> crate::props::ReplayResult {
     let ch = crate::props::choices_of(case);
+    if case["sub"].as_str() == Some("kb_closure_with_text_loading") {
+        return crate::props::conv(explore::replay(&Sys::with_batches, &ch));
+    }
     if case["sub"].as_str() == Some("kb_and_clone_histories") {
         return crate::props::conv(explore::replay(&PairSys::new, &ch));
     }
